@@ -310,7 +310,8 @@ class CallStack(deque):
             graph.remove_node(node)
 
         # A value the formula stored for its own node before it failed
-        if cells.has_node(node[KEY]):
+        # (an uncached cells stores none, and its key may be unhashable)
+        if cells.is_cached and cells.has_node(node[KEY]):
             cells.on_clear_trace(node[KEY])
 
         while self.refstack:
